@@ -40,4 +40,5 @@ func c03Extra(r *core.Run) {
 		}
 		o.Site(n, "api")
 	})
+	c03R10(r) // ninth detection round: props/c03_r10.go
 }
